@@ -194,10 +194,8 @@ func LeaseSet2(ls refmodel.LeaseSet2, signer refmodel.KeyPair) (*lease_set2.Leas
 	if err != nil {
 		return nil, err
 	}
-	var opts data.Mapping
-	if m, err := data.GoMapToMapping(ls.Options.ToMap()); err == nil && m != nil {
-		opts = *m
-	} else {
+	opts, err := LibMappingOf(ls.Options)
+	if err != nil {
 		return nil, err
 	}
 	var keys []lease_set2.EncryptionKey
@@ -227,6 +225,33 @@ func LeaseSet2(ls refmodel.LeaseSet2, signer refmodel.KeyPair) (*lease_set2.Leas
 		return nil, err
 	}
 	return &v, nil
+}
+
+// LibMappingOf turns a model mapping into a library Mapping value the way an application would come by it:
+// a mapping whose pairs are in key order through GoMapToMapping; a mapping whose pairs are NOT in key order
+// (the constructors always sort, so such a value can only have been received) by parsing its wire form, which
+// keeps the wire order.
+func LibMappingOf(m refmodel.Mapping) (data.Mapping, error) {
+	sorted := m.Sorted()
+	inOrder := true
+	for i := range m {
+		if string(m[i].K) != string(sorted[i].K) {
+			inOrder = false
+		}
+	}
+	if inOrder {
+		lm, err := data.GoMapToMapping(m.ToMap())
+		if err != nil || lm == nil {
+			return data.Mapping{}, err
+		}
+		return *lm, nil
+	}
+	wire := refmodel.MappingBytes(m)
+	lm, rem, errs := data.ReadMapping(append([]byte(nil), wire...))
+	if len(errs) != 0 || len(rem) != 0 {
+		return data.Mapping{}, ErrNotConstructible{"an out-of-order mapping is only obtainable from the parser, which refuses this one"}
+	}
+	return lm, nil
 }
 
 // ELSKeyForm selects one of the private key representations NewEncryptedLeaseSet accepts.
